@@ -216,6 +216,35 @@ func runC10(c *Ctx) {
 		if p == nil {
 			return
 		}
+		if decoded == 0 && i%5 == 0 {
+			// countersignatures are indifferent to the parent's unprotected headers - even to
+			// contents that could not be encoded (an unsigned countersignature holder attached
+			// before it is signed, a wrongly typed parameter)
+			hostile := func(h *cose.Headers) {
+				if h.Unprotected == nil {
+					h.Unprotected = cose.UnprotectedHeader{}
+				}
+				switch (i / 5) % 3 {
+				case 0:
+					h.Unprotected[int64(11)] = &cose.Countersignature{Headers: cose.Headers{Protected: cose.ProtectedHeader{int64(1): cose.AlgorithmES256}}}
+				case 1:
+					h.Unprotected[int64(4)] = int64(7)
+				default:
+					h.Unprotected[int64(2)] = []any{int64(4)}
+				}
+			}
+			switch x := p.ptr.(type) {
+			case *cose.Sign1Message:
+				hostile(&x.Headers)
+			case *cose.SignMessage:
+				hostile(&x.Headers)
+			case *cose.Signature:
+				hostile(&x.Headers)
+			case *cose.Countersignature:
+				hostile(&x.Headers)
+			}
+			p.name += "+unencodable-unprotected"
+		}
 		parent := p.ptr
 		if val {
 			parent = byValue(p.ptr)
@@ -224,6 +253,13 @@ func runC10(c *Ctx) {
 		base := fmt.Sprintf("parent=%s/byvalue=%v/decoded=%d/abbr=%v", p.name, val, decoded, abbreviated)
 		in := map[string]any{"case": i, "structure": base, "external": ext, "parent_protected": hexs(p.fields.Prot), "parent_payload_len": len(p.fields.Payload)}
 
+		// the parent is an input: countersigning or verifying must not modify it
+		parentSnap := mon.DeepHash(p.ptr)
+		defer func() {
+			if mon.DeepHash(p.ptr) != parentSnap {
+				rec.Violate("parent-modified", base, "countersigning / verifying modified the parent object", in)
+			}
+		}()
 		// ---- (a) structure bytes through spies ----
 		spyAlg := mon.Pick(r, cose.AlgorithmES256, cose.Algorithm(-65537))
 		var err error
